@@ -7,6 +7,8 @@ val fst : ('a1 * 'a2) -> 'a1
 
 val snd : ('a1 * 'a2) -> 'a2
 
+val length : 'a1 list -> int
+
 val app : 'a1 list -> 'a1 list -> 'a1 list
 
 type comparison =
@@ -31,6 +33,8 @@ module Nat :
   val max : int -> int -> int
 
   val min : int -> int -> int
+
+  val even : int -> bool
 
   val divmod : int -> int -> int -> int -> int * int
 
@@ -391,6 +395,33 @@ val int_bin : z -> int -> z -> z -> z
 
 val int_sops : z -> sops
 
+val lane_acc :
+  ('a1 -> 'a1 -> 'a1) -> 'a1 -> int -> (int -> 'a1) -> int -> int -> 'a1
+
+val hfold : ('a1 -> 'a1 -> 'a1) -> int -> (int -> 'a1) -> 'a1
+
+val reduce : ('a1 -> 'a1 -> 'a1) -> 'a1 -> int -> int -> (int -> 'a1) -> 'a1
+
+val all_of_loop : (int -> bool) -> int -> int -> bool
+
+val any_of_loop : (int -> bool) -> int -> int -> bool
+
+val all_of : (int -> bool) -> int -> bool
+
+val any_of : (int -> bool) -> int -> bool
+
+val none_of : (int -> bool) -> int -> bool
+
+val det2 : (int -> z) -> z
+
+val det3 : (int -> z) -> z
+
+val det4 : (int -> z) -> z
+
+val laplace : int -> (int -> int -> z) -> z
+
+val det_spec : int -> (int -> z) -> z
+
 val run_matmul_Z :
   cfg -> ety -> int -> int -> int -> z list -> z list -> z list
 
@@ -409,3 +440,9 @@ val run_tmatmul_C :
 
 val run_assign_Z :
   z -> int -> int -> bool -> int option -> expr -> z list list -> z list
+
+val run_reduce_Z : z -> int -> z list -> z -> z -> z list
+
+val run_preds : bool list -> bool list
+
+val run_det_Z : int -> z list -> z
